@@ -26,11 +26,12 @@ META["text"] = (
     "that column is the derivative (Coquelicot is_derive, componentwise) of the world position of a body-fixed point with respect to that joint's coordinate, and (same theorem) the rotation column is the angular velocity (d/dq of xmat u = xaxis x xmat u for every u). "
     "C07_tree_body_is_chain: in ANY tree the frame of every regular body (not free-floating, not mocap, parent not the world) is exactly such a chain segment (child offset, its joints, end of body) applied to the frame of its parent. "
     "C07_eq_poly_row (constraint rows): for joint / tendon equalities with a quartic coupling polynomial the row jac0 - deriv*jac1 written into efc_J is, entry by entry, the derivative of efc_pos = pos0 - ref0 - c0 - poly(pos1 - ref1) whenever the object rows are the derivatives of the object positions (all coefficients, all sizes; tied on every run to efc_pos / efc_J of generated and fixed-corpus equalities). "
+    "C07_ball_limit_row_columns: the dense limit row of a ball joint carries minus the rotation axis at the columns jnt_dofadr..+2 of the joint's dofs and zeros elsewhere (tied to efc_pos / efc_J of every active ball limit of the run). "
     "Partial / not proved: the statement about a general tree as a function of one joint coordinate (that the state before the joint and all non-descendants do not depend on it, and the composition of the segments along the ancestor path); ball/free Jacobian columns, mj_jacDot, mj_jacSubtreeCom, object velocities and constraint rows have no theorem (oracle only). "
     "Tie: on every run the model is evaluated at binary64 inside Coq on the tree parameters exported from the compiled mjModel (body_parentid, body_pos, body_quat, mocap pose, jnt_type, jnt_pos, jnt_axis, qpos, qpos0, inertial/geom/site/camera offsets and sameframe codes) "
     "and compared with xpos, xquat, xmat, xanchor, xaxis, xipos, ximat, geom/site/cam frames, mj_jac columns (all dofs, all bodies), mj_integratePos and mj_differentiatePos of the working tree. "
     "Oracle on implementation output: rotation checks (1e-10) for body/inertial/geom/site/camera frames; mj_jac, mj_jacBody, mj_jacBodyCom, mj_jacSubtreeCom, mj_jacGeom, mj_jacSite, mj_jacSparse, mj_jacPointAxis (and camera points) against central finite differences over mj_integratePos perturbations; "
-    "object velocities (mj_objectVelocity for xbody, body, geom, site, camera, world and local orientation) and cvel against J qvel and, independently of every Jacobian, against the finite difference of the object's position and orientation along qvel - on objects attached to jointless links too; mj_jacDot against the finite difference of J along qvel; equality / limit constraint rows of efc_J (dense, and the sparse rows densified) against finite differences of efc_pos, with joint and tendon equalities (one and two objects) whose coupling polynomial takes every zero/non-zero combination of its five coefficients; on a corpus of 'simple' bodies (the fast sparse paths mj_jacSparseSimple / mj_mergeChainSimple: leaves of every joint kind on static mounts with their own mass, mixed with deliberately non-simple leaves, connect / weld equalities between them) the same row oracle plus mj_jacDifPair (sparse and dense) against central differences of p2 - p1 and mj_jacSum (sparse and dense) against the weighted sum of mj_jac.")
+    "object velocities (mj_objectVelocity for xbody, body, geom, site, camera, world and local orientation) and cvel against J qvel and, independently of every Jacobian, against the finite difference of the object's position and orientation along qvel - on objects attached to jointless links too; mj_jacDot against the finite difference of J along qvel; constraint rows of efc_J of every kind (dense, and the sparse rows densified, which must agree row by row) in models where free / ball joints precede the constrained joints (qpos address != dof address): equality rows, ACTIVE limits of ball / hinge / slide joints and tendons and sphere-plane contact normals against finite differences of efc_pos, friction-loss rows against the unit dof vector / ten_J (itself against finite differences of ten_length), with joint and tendon equalities (one and two objects) whose coupling polynomial takes every zero/non-zero combination of its five coefficients; on a corpus of 'simple' bodies (the fast sparse paths mj_jacSparseSimple / mj_mergeChainSimple: leaves of every joint kind on static mounts with their own mass, mixed with deliberately non-simple leaves, connect / weld equalities between them) the same row oracle plus mj_jacDifPair (sparse and dense) against central differences of p2 - p1 and mj_jacSum (sparse and dense) against the weighted sum of mj_jac.")
 META["note"] = ("Trusted: Coq kernel + the standard-library real-number axioms listed in trusted_base; hand-written models Model/Kinematics.v and Model/Spatial.v; Lib/FloatFn.v (executable side); "
                 "correspondence harness (gcc, driver c07_kin.c, generator mjgen.h).")
 
@@ -249,6 +250,31 @@ def eq_cases(D):
         else:
             out.append("(true, %s, %s, %s, %s)" % (F.flist(c + [objs[0][0], objs[0][1], objs[1][0], objs[1][1]]), F.flist(objs[0][2]), F.flist(objs[1][2]), F.flist(exp)))
     return out
+
+
+def limit_cases(D):
+    """Coq case literals for the ball-joint limit rows of one block: (nv, dofadr, quaternion ++ range, efc_pos + margin ++ dense row)"""
+    out = []
+    nv = D["nv"][0]
+    if "jnt_range" not in D:
+        return out
+    for i in range(D["nefc"][0]):
+        if D["efc_type"][i] != 3 or D["jnt_type"][D["efc_id"][i]] != 1:
+            continue
+        j = D["efc_id"][i]
+        a = D["jnt_qposadr"][j]
+        out.append("(%d%%nat, %d%%nat, %s, %s)" % (nv, D["jnt_dofadr"][j], F.flist(D["qpos"][a:a + 4] + D["jnt_range"][2 * j:2 * j + 2]),
+                                                  F.flist([D["efc_pos"][i] + D["efc_margin"][i]] + D["efc_J"][i * nv:(i + 1) * nv])))
+    return out
+
+
+LIM_PRE = "\n".join([
+    "Definition g (l : list float) (i : nat) : float := nth i l 0%float.",
+    "Definition chk (c : nat * nat * list float * list float) : bool :=",
+    "  let '(nv, dofadr, a, expd) := c in",
+    "  let q : quat float := (g a 0, g a 1, g a 2, g a 3) in",
+    "  fclose_list %s (fst (ballLimit q (g a 4) (g a 5)) :: ballLimitRow nv dofadr q (g a 4) (g a 5)) expd." % TOL,
+]) + "\n"
 
 
 EQ_PRE = "\n".join([
@@ -636,7 +662,7 @@ def run(ctx):
     rng = ctx.rng
     big = ctx.tier != "quick"
     ctx.coq_props(allowed_axioms=F.STD_AXIOMS,
-                  extra_targets=["Lib/Num.vo", "Lib/NumF.vo", "Lib/FloatFn.vo", "Model/Spatial.vo", "Model/Kinematics.vo", "Model/EqPoly.vo"])
+                  extra_targets=["Lib/Num.vo", "Lib/NumF.vo", "Lib/FloatFn.vo", "Model/Spatial.vo", "Model/Kinematics.vo", "Model/EqPoly.vo", "Model/LimitRow.vo"])
     exe = ctx.driver("c07_kin", ["c07_kin.c"])
     if exe is None:
         return
@@ -670,9 +696,26 @@ def run(ctx):
     inp = "".join("K %d %d %d %d\n" % r for r in kreq) + "".join("J %d %d %d %d\n" % r for r in jreq) + "".join("E %d %d %d %d\n" % r for r in ereq) + "".join("Q %d\n" % k for k in range(nq_fixed)) + "".join("S %d %d\n" % r for r in sreq) + "".join("A %d\n" % k for k in range(na_fixed)) + "R\n"
     rc, out, err = ctx.run(exe, inp)
     blocks = parse_blocks(out)
-    if rc != 0 or len(blocks) != len(kreq) + len(jreq) + len(ereq) + nq_fixed + len(sreq) + na_fixed + 1:
-        ctx.broken.append(("correspondence", "driver c07_kin failed", "rc=%s blocks=%d/%d %s" % (rc, len(blocks), len(kreq) + len(jreq) + len(ereq) + nq_fixed + len(sreq) + na_fixed + 1, err[-800:])))
-        return
+    nexp = len(kreq) + len(jreq) + len(ereq) + nq_fixed + len(sreq) + na_fixed + 1
+    if rc != 0 or len(blocks) != nexp:
+        # the driver died (e.g. memory corruption inside the implementation): isolate the request(s) by running each one in its own
+        # process; a request on which the implementation crashes is a concrete failing input, the others are judged as usual
+        lines = [l for l in inp.split("\n") if l]
+        blocks, crashed = [], []
+        for l in lines:
+            rc1, out1, err1 = ctx.run(exe, l + "\n", timeout=300)
+            b1 = parse_blocks(out1)
+            if rc1 != 0 or len(b1) != 1:
+                crashed.append((l, rc1))
+                blocks.append({"ERR": "driver process terminated (rc=%s) while serving this request" % rc1, "CRASH": [1]})
+            else:
+                blocks.append(b1[0])
+        for (l, rc1) in crashed[:1]:
+            ctx.violation("impl_violation", {"request": l, "all_crashing_requests": [c[0] for c in crashed][:10]}, expected="the implementation serves the request (valid compiled model, valid state)",
+                          observed="process terminated abnormally, rc=%s (negative = signal)" % rc1, theorem="C07 (no crash on valid input)", signature={"law": "implementation crashes", "class": "generic"})
+        if len(blocks) != nexp:
+            ctx.broken.append(("correspondence", "driver c07_kin failed", "rc=%s blocks=%d/%d %s" % (rc, len(blocks), nexp, err[-800:])))
+            return
     kb, jb, eb = blocks[:len(kreq)], blocks[len(kreq):len(kreq) + len(jreq)], blocks[len(kreq) + len(jreq):-1]
     ereq = ereq + [("Q", k) for k in range(nq_fixed)] + [("S", r[0], r[1]) for r in sreq] + [("A", k) for k in range(na_fixed)]
     rb = blocks[-1]
@@ -718,6 +761,8 @@ def run(ctx):
     jtypes_seen = [0, 0, 0, 0]
     for req, D in list(zip(kreq, kb)) + list(zip(jreq, jb)):
         op = "K" if "jacp_0" in D else "J"
+        if "CRASH" in D:
+            continue
         if "ERR" in D:
             ctx.violation("impl_violation", {"request": "%s %d %d %d %d" % ((op,) + tuple(req))}, expected="no mju_error on a compiled model", observed=D["ERR"],
                           theorem="C07_kinematics_defined", signature={"law": "no error"})
@@ -748,6 +793,8 @@ def run(ctx):
                 eqlits.append(lit)
                 eqdescr.append(req)
     for req, D in zip(ereq, eb):
+        if "CRASH" in D:
+            continue
         if "ERR" in D:
             ctx.violation("impl_violation", {"request": ("E %d %d %d %d" % tuple(req)) if req[0] not in ("Q", "S", "A") else " ".join(str(x) for x in req)}, expected="no mju_error", observed=D["ERR"], theorem="C07", signature={"law": "no error"})
             continue
@@ -815,6 +862,21 @@ def run(ctx):
                       theorem="correspondence c07 equality row", signature={"part": "joint/tendon equality row"},
                       note="implementation and Coq model disagree; see the oracle violations (if any) for a failing input")
     ctx.cov["support"]["equality_row_evaluations"] = len(eqlits)
+    limlits, limdescr = [], []
+    for req, D in zip(ereq, eb):
+        if "ERR" not in D and "efc_J" in D:
+            for lit in limit_cases(D):
+                limlits.append(lit)
+                limdescr.append(req)
+    lfails = ctx.coq_eval("c07lim", "From Coq Require Import ZArith PrimFloat Bool.\nFrom MJV Require Import Lib.Num Lib.NumF Lib.FloatFn Model.Spatial Model.LimitRow.\nOpen Scope nat_scope.",
+                          limlits, "chk", pre=LIM_PRE, shard=100) if limlits else []
+    if lfails:
+        req = limdescr[lfails[0]]
+        ctx.violation("correspondence", {"request": " ".join(str(x) for x in req) if req[0] in ("Q", "S", "A") else "E %d %d %d %d" % tuple(req), "part": "ball-joint limit row"},
+                      expected="model output (Model/LimitRow.v at binary64, tolerance 2^-30 scaled)", observed="efc_pos / dense efc_J row of the implementation differs", found_input=False,
+                      theorem="correspondence c07 ball limit row", signature={"part": "ball-joint limit row"},
+                      note="implementation and Coq model disagree; see the oracle violations (if any) for a failing input")
+    ctx.cov["support"]["ball_limit_row_evaluations"] = len(limlits)
     seenw = set()
     for i in fails:
         req, what = descr[i]
@@ -827,13 +889,13 @@ def run(ctx):
                       note="implementation and Coq model disagree on this generated tree; see the oracle violations (if any) for a failing input")
     # ---------------- coverage
     nontriv = sum(1 for (req, what) in descr if req[2] >= 2)
-    ctx.cov["evaluations"] = len(cases) + len(eqlits)
+    ctx.cov["evaluations"] = len(cases) + len(eqlits) + len(limlits)
     ctx.cov["distinct_nontrivial"] = nontriv
     ctx.cov["rule"] = ("one Coq evaluation per joint / tendon equality row (Model/EqPoly.v) and one per (generated tree, state, part) with part in {mj_kinematics1 outputs, mj_local2Global outputs, mj_jac of an attached point of every body, cdof, "
                        "mj_integratePos + mj_differentiatePos}; trees from mjgen.h (all joint types, multi-joint bodies, multi-tree, mocap, sites, cameras, 1..8 bodies) extended by c07_kin.c with jointless bodies (fixed links under moving bodies, chains of fixed links, moving bodies under fixed links, static bodies welded to the world, each with geoms / sites / cameras), states: reference configuration, random, exactly-zero angles, "
                        "angles beyond one turn, unnormalised / nearly-unit ball, free and mocap quaternions; non-trivial = tree with at least two moving bodies")
     ctx.cov["samples"] = [{"request": "K %d %d %d %d" % tuple(d[0]), "part": d[1]} for d in (descr[:1] + descr[len(descr) // 2:len(descr) // 2 + 1] + descr[-1:])]
-    ctx.cov["correspondence_disagreements"] = len(fails) + len(efails)
+    ctx.cov["correspondence_disagreements"] = len(fails) + len(efails) + len(lfails)
     ctx.cov["support"]["oracle_counts"] = counts
     ctx.cov["support"]["joint_types_seen_free_ball_slide_hinge"] = jtypes_seen
     ctx.cov["support"]["oracle_requests"] = {"J": len(jreq), "E": len(ereq)}
